@@ -5,12 +5,14 @@ CONSTANTS MaxFieldLen
 \* x , " LF CR space e-acute
 Alpha == {120, 44, 34, 10, 13, 32, 233}
 Fields == UNION { [1..n -> Alpha] : n \in 0..MaxFieldLen }
-\* a lone CR inside an unquoted LF-dialect field is data for the writer but cannot be told from a line break by common
-\* readers: the LF dialect is checked on fields without CR
-NoCR(f) == \A i \in DOMAIN f : f[i] # 13
+\* a lone CR inside an unquoted LF-dialect field cannot be told from a line break by common readers: the specified writer quotes it
 ASSUME \A f1 \in Fields, f2 \in Fields :
          /\ CsvParse("CRLF", CsvWrite("CRLF", << <<f1, f2>> >>)) = IF f1 = <<>> /\ f2 = <<>> THEN << <<f1, f2>> >> ELSE << <<f1, f2>> >>
-         /\ (NoCR(f1) /\ NoCR(f2)) => CsvParse("LF", CsvWrite("LF", << <<f1, f2>>, <<f2, f1>> >>)) = << <<f1, f2>>, <<f2, f1>> >>
+         /\ CsvParse("LF", CsvWrite("LF", << <<f1, f2>>, <<f2, f1>> >>)) = << <<f1, f2>>, <<f2, f1>> >>
+\* the reader ends a record at a lone CR and at CRLF (one break), as Python's csv.reader does
+ASSUME CsvParse("LF", <<120, 13, 121, 10>>) = << <<<<120>>>>, <<<<121>>>> >>
+ASSUME CsvParse("LF", <<120, 13, 10, 121, 10>>) = << <<<<120>>>>, <<<<121>>>> >>
+ASSUME CsvParse("LF", <<34, 120, 13, 34, 13, 121>>) = << << <<120, 13>> >>, <<<<121>>>> >>
 ASSUME CsvParse("LF", <<120, 34, 120>>) = <<"malformed">>
 ASSUME CsvParse("LF", <<34, 120>>) = <<"malformed">>
 ASSUME ParseD4(<<48, 46, 49, 50, 51, 52>>) = 1234 /\ ParseD4(<<49, 46, 48, 48, 48, 48>>) = 10000 /\ ParseD4(<<49, 46, 48>>) = -1
